@@ -18,6 +18,6 @@ cd _build
   echo "let () = Driver.main ()"
 } > main.ml
 FILES=$(ocamlfind ocamldep -sort *.ml)
-ocamlfind ocamlopt -package zarith -linkpkg -w -a -O3 $FILES -o ../gv-model.new 2>/dev/null || \
-ocamlfind ocamlopt -package zarith -linkpkg -w -a $FILES -o ../gv-model.new
+ocamlfind ocamlopt -package zarith,unix -linkpkg -w -a -O3 $FILES -o ../gv-model.new 2>/dev/null || \
+ocamlfind ocamlopt -package zarith,unix -linkpkg -w -a $FILES -o ../gv-model.new
 mv ../gv-model.new ../gv-model
